@@ -1,6 +1,7 @@
 import Driver.Util
 -- one import per component (keep sorted; one line each so that merges stay trivial)
 import Driver.Ops.Attempt
+import Driver.Ops.Bounce
 import Driver.Ops.Client
 import Driver.Ops.Data
 import Driver.Ops.Disk
@@ -26,6 +27,7 @@ def dispatch (line : String) : String :=
   | ["ping"] => "pong"
   -- one line per component
   | "attempt" :: rest => attemptOp rest
+  | "bounce" :: rest => bounceOp rest
   | "client" :: rest => clientOp rest
   | "data" :: rest => dataOp rest
   | "disk" :: rest => diskOp rest
